@@ -95,6 +95,18 @@ CHECKS = {
         TRUSTED + "; sub-volumes are weighted one-hot vectors by construction (verified on every real load)",
         "DESIGN.md 4/C09",
     ),
+    "C13": (
+        "model_checking",
+        "spec/Serial.tla states suffix dispatch, the column layout z,y,x,zvec,yvec,xvec+features, exact round trip for "
+        "Parquet/data frames and decimal rounding for CSV as an acceptor over integer micro-units (orientation as a "
+        "geodesic angle bound); MC_C13.tla checks the acceptor's laws and enumerates rows 1..4 x position lattices x "
+        "orientation classes (all 180-degree turns, near pi, near zero, rational, random) x feature dtypes incl. nulls, "
+        "strings, booleans x precisions x suffixes x entry points. Every case is written and read back with the real API "
+        "and the recorded event (file magic, header, rows before/after) is judged by TLC (Trace_Serial.tla).",
+        "TLA+ spec Serial.tla model-checked by TLC; round trips recorded on the real API validated by TLC (Trace_Serial.tla)",
+        TRUSTED + "; strings compared by checksum, angles measured by scipy",
+        "DESIGN.md 4/C13",
+    ),
 }
 
 REASON_TODO = "check not built yet in this round (planned: see DESIGN.md section 4)"
